@@ -334,6 +334,124 @@ class Gen:
             res[name] = (params, rng['b'], rng['e'], env['sz_'])
         return res
 
+    # ---- node registration: ValueNode ctors / dtor -> RegisterMe / DeregisterMe -> ValuePresolverImpl::Register / Deregister;
+    #      CleanUpValueNodes loop and ValueNode::CleanUpAndRealloc
+    DATA_MEMBERS = ('vi_', 'vd_', 'vStr_', 'sz_', 'name_')
+
+    def registration(self):
+        vn = [d for d in self.dump('mp::pre::ValueNode') if d.get('kind') == 'CXXRecordDecl' and d.get('completeDefinition')]
+        if len(vn) != 1:
+            raise TranslateError('class ValueNode: %d complete definitions' % len(vn))
+        vn = vn[0]
+        vpi = self.dump('mp::pre::ValuePresolverImpl')
+
+        def own(name):
+            ms = [m for m in vn['inner'] if m.get('kind') == 'CXXMethodDecl' and m.get('name') == name and any(c.get('kind') == 'CompoundStmt' for c in m.get('inner', []))]
+            if len(ms) != 1:
+                raise TranslateError('ValueNode::%s: %d definitions' % (name, len(ms)))
+            return self.body(ms[0]).get('inner', [])
+
+        def impl(name):
+            ms = [m for d in vpi for m in find(d, lambda n: n.get('kind') == 'CXXMethodDecl' and n.get('name') == name and any(c.get('kind') == 'CompoundStmt' for c in n.get('inner', [])))]
+            if len(ms) != 1:
+                raise TranslateError('ValuePresolverImpl::%s: %d definitions' % (name, len(ms)))
+            return self.body(ms[0]).get('inner', [])
+
+        def set_ops(stmts, where):
+            """statements of Register / Deregister: exactly the calls on val_nodes_ with the parameter"""
+            ops = []
+            for st in stmts:
+                if self.is_assert(st):
+                    continue
+                calls = find(st, lambda n: n.get('kind') == 'CXXMemberCallExpr' and n['inner'][0].get('kind') == 'MemberExpr'
+                             and strip(n['inner'][0]['inner'][0]).get('name') == 'val_nodes_')
+                if len(calls) != 1:
+                    raise TranslateError('%s: statement without exactly one call on val_nodes_' % where)
+                nm = calls[0]['inner'][0]['name']
+                arg = find(calls[0]['inner'][1], lambda n: n.get('kind') == 'DeclRefExpr' and n['referencedDecl'].get('kind') == 'ParmVarDecl')
+                if nm not in ('insert', 'erase') or not arg:
+                    raise TranslateError('%s: val_nodes_.%s' % (where, nm))
+                ops.append('.' + nm)
+            return ops
+
+        def me(stmts, target, where):
+            """RegisterMe / DeregisterMe: pre_.<target>(this)"""
+            if len(stmts) != 1 or stmts[0]['kind'] != 'CXXMemberCallExpr':
+                raise TranslateError(where + ': body is not a single call')
+            callee = stmts[0]['inner'][0]
+            if callee.get('name') != target or strip(callee['inner'][0]).get('name') != 'pre_' or strip(stmts[0]['inner'][1]).get('kind') != 'CXXThisExpr':
+                raise TranslateError('%s: not pre_.%s(this)' % (where, target))
+            return set_ops(impl(target), 'ValuePresolverImpl::' + target)
+
+        def body_ops(stmts, where):
+            ops = []
+            for st in stmts:
+                k = st['kind']
+                if k == 'CXXMemberCallExpr' and st['inner'][0].get('kind') == 'MemberExpr' and strip(st['inner'][0]['inner'][0]).get('kind') == 'CXXThisExpr':
+                    nm = st['inner'][0]['name']
+                    if nm == 'RegisterMe':
+                        ops += me(own('RegisterMe'), 'Register', 'RegisterMe')
+                    elif nm == 'DeregisterMe':
+                        ops += me(own('DeregisterMe'), 'Deregister', 'DeregisterMe')
+                    else:
+                        raise TranslateError('%s: call of %s' % (where, nm))
+                elif k in ('CXXOperatorCallExpr', 'BinaryOperator'):
+                    lhs = [x for x in find(st, lambda n: n.get('kind') == 'MemberExpr' and strip(n['inner'][0]).get('kind') == 'CXXThisExpr')]
+                    if not lhs or lhs[0]['name'] not in self.DATA_MEMBERS:
+                        raise TranslateError('%s: assignment to something that is not a data member' % where)
+                else:
+                    raise TranslateError('%s: statement %s' % (where, k))
+            return ops
+        ctors = {}
+        for m in vn['inner']:
+            if m.get('kind') == 'CXXConstructorDecl' and not m.get('isImplicit'):
+                q = m['type']['qualType']
+                tag = 'Move' if '&&' in q else ('Copy' if 'const mp::pre::ValueNode &' in q else 'Plain')
+                b = [c for c in m.get('inner', []) if c.get('kind') == 'CompoundStmt']
+                if not b:
+                    raise TranslateError('ValueNode constructor %s has no body (defaulted?)' % q)
+                if tag in ctors:
+                    raise TranslateError('two %s constructors' % tag)
+                ctors[tag] = body_ops(b[0].get('inner', []), 'ValueNode(%s)' % q)
+        if set(ctors) != {'Plain', 'Move', 'Copy'}:
+            raise TranslateError('ValueNode constructors found: %s (an implicit/defaulted one does not register)' % sorted(ctors))
+        dt = [m for m in vn['inner'] if m.get('kind') == 'CXXDestructorDecl' and any(c.get('kind') == 'CompoundStmt' for c in m.get('inner', []))]
+        if len(dt) != 1:
+            raise TranslateError('ValueNode destructor with a body: %d' % len(dt))
+        dtor = body_ops(self.body(dt[0]).get('inner', []), '~ValueNode')
+        # CleanUpAndRealloc
+        nodeops = []
+        for st in own('CleanUpAndRealloc'):
+            if st['kind'] != 'CXXMemberCallExpr':
+                raise TranslateError('CleanUpAndRealloc: statement ' + st['kind'])
+            callee = st['inner'][0]
+            arr = strip(callee['inner'][0])
+            if arr.get('name') not in ('vi_', 'vd_') or strip(arr['inner'][0]).get('kind') != 'CXXThisExpr':
+                raise TranslateError('CleanUpAndRealloc: not a numeric array of this node')
+            a = '.vi' if arr['name'] == 'vi_' else '.vd'
+            if callee['name'] == 'clear' and len(st['inner']) == 1:
+                nodeops.append('.clear ' + a)
+            elif callee['name'] == 'resize' and len(st['inner']) == 2:
+                sz = find(st['inner'][1], lambda n: n.get('kind') == 'MemberExpr' and n.get('name') == 'Size')
+                if not sz:
+                    raise TranslateError('CleanUpAndRealloc: resize to something that is not Size()')
+                nodeops.append('.resizeToSize ' + a)
+            else:
+                raise TranslateError('CleanUpAndRealloc: call of ' + callee['name'])
+        # CleanUpValueNodes
+        cl = impl('CleanUpValueNodes')
+        if len(cl) != 1 or cl[0]['kind'] != 'CXXForRangeStmt':
+            raise TranslateError('CleanUpValueNodes: body is not a single range-for')
+        rng_decl = [d for d in cl[0]['inner'] if d.get('kind') == 'DeclStmt'][0]
+        over = find(rng_decl, lambda n: n.get('kind') == 'MemberExpr')[0]['name']
+        bodycall = cl[0]['inner'][-1]
+        if bodycall['kind'] != 'CXXMemberCallExpr':
+            raise TranslateError('CleanUpValueNodes: loop body is not a single call')
+        called = bodycall['inner'][0]['name']
+        if called != 'CleanUpAndRealloc':
+            raise TranslateError('CleanUpValueNodes calls %s for each node' % called)
+        return ctors, dtor, nodeops, over
+
     # ---- StdBackend::DoRound / RoundSolution (mip:round)
     def do_round(self):
         docs = self.dump('mp::StdBackend')
@@ -677,7 +795,7 @@ def main(repo, out, work):
     iisenum = dict(g.enums)
     # BasicStatus enumerators are used by ReverseBasisLowUpp / PresolveBasisEntry, IISStatus by the IIS switch
     L = ['/- GENERATED by translators/gen_valcvt.py from include/mp/valcvt*.h and include/mp/flat/redef/std/range_con.h — do not edit. -/',
-         'import MpVerif.C04.R2SLang', 'namespace MpVerif.Gen.ValCvt', 'open MpVerif.C04', '']
+         'import MpVerif.C04.R2SLang', 'import MpVerif.C04.RegLang', 'namespace MpVerif.Gen.ValCvt', 'open MpVerif.C04', '']
     g.enums = dict(basic)
     sn = g.set_num()
     for tag in ('Int', 'Dbl'):
@@ -708,6 +826,13 @@ def main(repo, out, work):
     L.append('def iisCases : List (Int × Int) := [%s]' % ', '.join('(%d, %d)' % c for c in cases))
     L.append('/-- `PostsolveIISEntry`: tested cell, written cell, cell read when the tested value is 0 -/')
     L.append('def postsolveIISEntry : R2SIIS := ⟨%s, %s, %s⟩\n' % (test, dst, els))
+    ctors, dtor, nodeops, over = g.registration()
+    L.append('/-- what the three `ValueNode` constructors and the destructor do to `val_nodes_` (through `RegisterMe`/`DeregisterMe` and `ValuePresolverImpl::Register`/`Deregister`) -/')
+    for tag in ('Plain', 'Move', 'Copy'):
+        L.append('def ctor%s : List RegOp := [%s]' % (tag, ', '.join(ctors[tag])))
+    L.append('def dtor : List RegOp := [%s]' % ', '.join(dtor))
+    L.append('/-- `CleanUpValueNodes`: `for (pvn : %s) pvn->CleanUpAndRealloc()` with the body of `ValueNode::CleanUpAndRealloc` -/' % over)
+    L.append('def cleanUpValueNodes : CleanLoop := ⟨%s, [%s]⟩\n' % (lstr(over), ', '.join(nodeops)))
     dr = g.do_round()
     L.append('/-- `StdBackend::DoRound`: `fAssign` (does option `mip:round` = r ask for the values to be changed?) -/')
     L.append('def doRoundAssign (r : Int) : Prop := %s' % dr['assign'])
